@@ -311,3 +311,112 @@ def _text(parts: List[Optional[str]]) -> Any:
 def explore(folder: Folder, fn: FuncInfo, env: Dict[str, Any], oracle: Optional[Oracle] = None,
             on_call: Optional[CallHook] = None, value_oracle: Optional[Callable[[ast.expr, Dict[str, Any]], Any]] = None) -> List[Outcome]:
     return Explorer(folder, fn, oracle, on_call, value_oracle).run(env)
+
+
+# --------------------------------------------------------------------------- residual expressions
+
+
+def simplify_test(test: ast.expr, atom: Callable[[ast.expr], Optional[bool]]) -> Tuple[Optional[bool], Optional[ast.expr]]:
+    """Decide `test` as far as `atom` knows its atoms: (True/False, None) or (None, residual test)."""
+    known = atom(test)
+    if known is not None:
+        return known, None
+    if isinstance(test, ast.UnaryOp) and isinstance(test.op, ast.Not):
+        d, r = simplify_test(test.operand, atom)
+        if d is not None:
+            return (not d), None
+        return None, ast.copy_location(ast.UnaryOp(op=ast.Not(), operand=r), test)
+    if isinstance(test, ast.BoolOp):
+        is_and = isinstance(test.op, ast.And)
+        rest: List[ast.expr] = []
+        for v in test.values:
+            d, r = simplify_test(v, atom)
+            if d is None:
+                assert r is not None
+                rest.append(r)
+            elif d != is_and:
+                return d, None  # False in an `and`, True in an `or`
+        if not rest:
+            return is_and, None
+        if len(rest) == 1:
+            return None, rest[0]
+        return None, ast.copy_location(ast.BoolOp(op=test.op, values=rest), test)
+    return None, test
+
+
+class _Let(ast.NodeTransformer):
+    def __init__(self, env: Dict[str, ast.expr]) -> None:
+        self.env = env
+
+    def visit_Name(self, node: ast.Name) -> ast.AST:
+        if isinstance(node.ctx, ast.Load) and node.id in self.env:
+            import copy as _copy
+
+            return _copy.deepcopy(self.env[node.id])
+        return node
+
+
+def residual_expr(fn_node: ast.AST, atom: Callable[[ast.expr], Optional[bool]]) -> Optional[ast.expr]:
+    """The value a (canonical, loop-free) function returns, as one expression, after deciding the tests
+    `atom` knows: if/else trees become conditional expressions, single-assignment locals are substituted.
+    None when the body is not of that form on the paths that remain."""
+    import copy as _copy
+
+    from .canon import _Expr
+    from .canon import jumps
+
+    def sub(e: Optional[ast.expr], env: Dict[str, ast.expr]) -> ast.expr:
+        if e is None:
+            return ast.Constant(value=None)
+        return _Let(env).visit(_copy.deepcopy(e))
+
+    def block(stmts: List[ast.stmt], env: Dict[str, ast.expr], depth: int) -> Optional[ast.expr]:
+        if depth > 60:
+            return None
+        for i, s in enumerate(stmts):
+            rest = stmts[i + 1:]
+            if isinstance(s, ast.Expr) and isinstance(s.value, ast.Constant):
+                continue
+            if isinstance(s, (ast.Pass, ast.Assert)):
+                continue
+            if isinstance(s, ast.Return):
+                return sub(s.value, env)
+            if isinstance(s, ast.Raise):
+                return ast.Call(func=ast.Name(id="RAISES", ctx=ast.Load()), args=[sub(s.exc, env)] if s.exc else [], keywords=[])
+            if isinstance(s, ast.Assign) and len(s.targets) == 1 and isinstance(s.targets[0], ast.Name):
+                env = dict(env)
+                env[s.targets[0].id] = sub(s.value, env)
+                continue
+            if isinstance(s, ast.AnnAssign) and isinstance(s.target, ast.Name) and s.value is not None:
+                env = dict(env)
+                env[s.target.id] = sub(s.value, env)
+                continue
+            if isinstance(s, ast.If):
+                d, r = simplify_test(sub(s.test, env), atom)
+                then = list(s.body) + ([] if jumps(s.body) else list(rest))
+                other = list(s.orelse) + ([] if (s.orelse and jumps(s.orelse)) else list(rest))
+                if d is True:
+                    return block(then, env, depth + 1)
+                if d is False:
+                    return block(other, env, depth + 1)
+                a = block(then, env, depth + 1)
+                b = block(other, env, depth + 1)
+                if a is None or b is None:
+                    return None
+                assert r is not None
+                return ast.IfExp(test=r, body=a, orelse=b)
+            return None
+        return ast.Constant(value=None)
+
+    body = getattr(fn_node, "body")
+    e = block(list(body), {}, 0)
+    if e is None:
+        return None
+    ast.fix_missing_locations(e)
+    for _ in range(6):
+        x = _Expr()
+        e = x.visit(e)
+        ast.fix_missing_locations(e)
+        if not x.changed:
+            break
+    return e
